@@ -1,17 +1,25 @@
 """C08 — execution never crashes: failures surface as runtime errors."""
+import concurrent.futures as cf
+import os
+import subprocess
+
 import gen_lang
+import vlib
 import wire
-from props import c02, c09, c11, c12
+from props import c02, c09, c11, c12, c20
 from vlib import Case, lang_lines
 
 RULE = ("no-panic oracle over four in-process engines: (1) every operator x operand-kind pair x boundary values through the real VM (op/un), (2) every builtin that is safe to call "
         "in-process x arity 0..4 x kinds x boundary values (builtin), (3) format strings incl. malformed ones, (4) generated programs plus deep recursion (unbounded, zero-argument), "
         "wide functions (255 parameters/locals), wrong arities, absurd shift/repeat/precision arguments (eval); every case runs under catch_unwind with a watchdog; "
+        "(5) end to end through the binary (dev and release) with packet input: filter programs — filters at top level, inside functions, blocks, loops and other filters' actions, "
+        "referring to globals, parameters and locals of the enclosing function, with return / break / continue / runtime errors / recursion inside patterns and actions, several `@ end`; "
         "non-trivial = the case ended with a value or a reported runtime/compile error")
 ASSUMPTIONS = ["excluded by the property: requests for more memory than the machine has (repetition counts / widths above 2^24 are not generated) and printing self-containing containers",
                "time, exit, sleep, input, rand and the file/pcap builtins are exercised end-to-end through the binary by C20-C22/C24, not in-process",
-               "comparison/hashing of a self-containing array overflows the native stack (K4): not generated here; recorded as a known finding of this property"]
+               "comparison/hashing of a self-containing array and dropping a container nested 200 000 levels deep overflow the native stack: generated, listed in known_findings.json"]
 HARNESS_TIMEOUT = 60
+BINARY_PROFILES = ["dev", "release"]
 
 
 def canon(s):
@@ -23,7 +31,19 @@ def nontrivial(c):
 
 
 def classify(c):
+    k = (c.extra or {}).get("known_key")
+    if k:
+        return k
     return "crash " + c.line.split(" ")[0] + " " + " ".join(c.line.split(" ")[1:2])[:30]
+
+
+# recursion of the native code over the *value* (drop, ==, hash): known findings, see known_findings.json
+NATIVE_RECURSION = [
+    ("deep-nesting-native-recursion", "let a = [];\nlet i = 0;\nwhile i < 200000 { a = [a]; i = i + 1; }\n0\n"),
+    ("deep-nesting-native-recursion", "let a = map {};\nlet i = 0;\nwhile i < 200000 { a = map {1: a}; i = i + 1; }\n0\n"),
+    ("self-containing-compare-or-hash", "let a = [1];\npush(a, a);\na == a\n"),
+    ("self-containing-compare-or-hash", "let a = [1];\npush(a, a);\nlet m = map {};\nm[a] = 1;\n0\n"),
+]
 
 
 def model_skip(c):
@@ -55,6 +75,77 @@ DEEP = [
     "len(); len(1, 2); push(); first(); format(); format(1); join(); chars(); round(); insert(1); get()\n",
     "pcap_stream(); pcap_open(); pcap_read_next(); pcap_read_all(); pcap_write(); open(); read(); write(); flush(); read_line(); read_to_string(); decode_utf8(); encode_utf8(); is_error(); strerror(); get_errno(1)\n",
 ]
+
+
+# ---- engine 5: filter programs through the binary, with packet input
+F_PATTERNS = ["true", "false", "NP % 2 == 0", "PL > 10", "g > 0", "x", "loc", "1 / 0", "undefined_name", "f(1)", "self_name", "[1][5]", "null", "\"\"", "NP"]
+F_ACTIONS = ["", "{ }", "{ g = g + 1; }", "{ return; }", "{ return 1; }", "{ break; }", "{ continue; }", "{ x = x + 1; }", "{ loc = loc + 1; puts(loc); }",
+             "{ let a = 1; let b = 2; let c = a + b; g = g + c; }", "{ 1 / 0; }", "{ f(g); }", "{ rec(50); }", "{ rec(100000); }", "{ @ true { g = g + 1; } }",
+             "{ fn inner() { return 5; } g = g + inner(); }", "{ while true { break; } }", "{ let i = 0; while i < 3 { i = i + 1; if i == 2 { continue; } } }",
+             "{ puts(NP, \" \", PL, \" \", WL, \" \", TSS, \" \", TSU); }", "{ exit(0); }", "{ self_name(1); }", "{ let big = [1, 2, 3] * 2; }", "{ undefined_fn(); }"]
+F_PLACES = [
+    "@ {pat} {act}\n",
+    "fn host(x) {{\n  let loc = 5;\n  @ {pat} {act}\n  return x;\n}}\nhost(1);\n",
+    "fn self_name(x) {{\n  let loc = 5;\n  @ {pat} {act}\n}}\nself_name(2);\n",
+    "{{\n  let loc = 7;\n  let x = 1;\n  @ {pat} {act}\n}}\n",
+    "let k = 0;\nwhile k < 2 {{\n  k = k + 1;\n  let loc = k;\n  let x = k;\n  @ {pat} {act}\n}}\n",
+    "let mk = fn(x) {{ let loc = x; return fn() {{ @ {pat} {act} }}; }};\nlet h = mk(3);\nh();\n",
+    "@ true {{\n  let loc = 1;\n  let x = 2;\n  @ {pat} {act}\n}}\n",
+    "@ end {act}\n",
+    "@ {pat} {act}\n@ end {{ puts(NP); }}\n@ end {{ puts(g); }}\n",
+]
+F_PRELUDE = "let g = 1;\nlet x = 0;\nlet loc = 0;\nfn f(n) { n + g }\nfn rec(n) { if n == 0 { 0 } else { 1 + rec(n - 1) } }\nfn self_name(n) { n }\n"
+
+
+def filter_programs(rng, n_random):
+    out = []
+    for place in F_PLACES:
+        for pat in F_PATTERNS:
+            out.append(F_PRELUDE + place.format(pat=pat, act=rng.choice(F_ACTIONS)))
+        for act in F_ACTIONS:
+            out.append(F_PRELUDE + place.format(pat=rng.choice(F_PATTERNS[:6]), act=act))
+    for _ in range(n_random):
+        body = "".join(rng.choice(F_PLACES).format(pat=rng.choice(F_PATTERNS), act=rng.choice(F_ACTIONS)) for _ in range(rng.randint(1, 3)))
+        out.append(F_PRELUDE + body)
+    return out
+
+
+def run_filter(ctx, scratch, idx, c):
+    e = c.extra
+    exe = ctx.p2sh.get(e["prof"])
+    if not exe:
+        return "NOHARNESS"
+    path = os.path.join(scratch, f"q{idx}.p2")
+    with open(path, "w", encoding="utf-8") as f:
+        f.write(e["src"])
+    try:
+        p = subprocess.run([exe] + (["-s"] if e["skip"] else []) + [path], input=bytes.fromhex(e["data"]), stdout=subprocess.PIPE, stderr=subprocess.PIPE, timeout=60)
+    except subprocess.TimeoutExpired:
+        return "HANG"
+    err = p.stderr.decode("utf-8", "replace")
+    if "panicked" in err or "overflowed its stack" in err:
+        return "PANIC " + err[:200].encode("utf-8").hex()
+    if p.returncode < 0 or p.returncode in (101, 134, 139):
+        return f"ABORT({p.returncode})"
+    if "Runtime error" in err:
+        return "rterr"
+    if "compile error" in err or "parse errors" in err:
+        return "cerr"
+    return "ok"
+
+
+def run_impl(ctx, cases):
+    outs = [None] * len(cases)
+    hidx = [k for k, c in enumerate(cases) if not c.line.startswith("filt ")]
+    hout = vlib.run_parallel(ctx.harness, [cases[k].line for k in hidx], timeout=HARNESS_TIMEOUT, label="harness") if ctx.harness else ["NOHARNESS"] * len(hidx)
+    for k, o in zip(hidx, hout):
+        outs[k] = o
+    fidx = [k for k, c in enumerate(cases) if c.line.startswith("filt ")]
+    scratch = ctx.mkscratch()
+    with cf.ThreadPoolExecutor(max_workers=16) as ex:
+        for k, o in zip(fidx, ex.map(lambda k: run_filter(ctx, scratch, k, cases[k]), fidx)):
+            outs[k] = o
+    return outs
 
 
 def wide(n):
@@ -91,4 +182,15 @@ def cases(ctx):
     lines = lang_lines(ctx, srcs)
     for l, t, s in zip(lines, tags, srcs):
         out.append(Case(l, (t,), extra={"src": s}))
+    nl = lang_lines(ctx, [src for _, src in NATIVE_RECURSION])
+    for l, (key, src) in zip(nl, NATIVE_RECURSION):
+        out.append(Case(l, ("native-recursion",), extra={"src": src, "known_key": key}))
+    # engine 5: filter programs with packet input, through the binary
+    for k, src in enumerate(filter_programs(rng, ctx.scale(150, 6000))):
+        hdr, pkts, data = c20.stream(rng)
+        if not pkts:
+            hdr, pkts, data = c20.stream(rng)
+        prof = "dev" if k % 3 else "release"
+        skip = rng.random() < 0.5
+        out.append(Case("filt " + src.encode("utf-8").hex(), ("filter-e2e", prof), extra={"src": src, "data": data.hex(), "skip": skip, "prof": prof, "packets": len(pkts)}))
     return out
